@@ -59,6 +59,9 @@ def stages(tier, seed, witness_search=False):
     # the ordinary release profile (no debug assertions, no overflow checks) on the deterministic part: every forced platform
     det2 = [sc for sc in scripts if "oneshot" in sc.tags or "boundary-grid" in sc.tags or "context-sequence" in sc.tags]
     st.append(LineStage("no-debug-assertions-build", det2, normalize=norm_all, profile="relnd"))
+    # the pure build compiled for this machine's own CPU (-C target-cpu=native): every cfg(target_feature = "...") arm the CPU
+    # supports is compiled in, instead of the baseline x86-64 arms that all other builds take
+    st.append(LineStage("pure-native-cpu-build", det2, features=("pure", "native"), normalize=norm_all))
     # the other end of the feature-set quantifier: the crate with default-features = false and no optional feature (harness/rs_min;
     # no platform hook there, so the `P plat` lines are dropped and the detected level is used), default and pure flavours
     seen, nodef = set(), []
@@ -92,6 +95,8 @@ def replay(d, lean_exe):
         return dict(still_fails=bool(core.run_pair(ls.scripts, exe, lean_exe, "rs", norm_all)))
     if st.startswith("no-default-features"):
         return replay_line(d, lean_exe, impl="rs_min", features=("pure",) if "pure" in st else (), normalize=norm_all)
-    if st.endswith("-build") and st != "default-build":
+    if st == "pure-native-cpu-build":
+        feats = ("pure", "native")
+    elif st.endswith("-build") and st != "default-build":
         feats = (st[:-6],)
     return replay_line(d, lean_exe, features=feats, normalize=norm_all)
